@@ -1,4 +1,289 @@
 /-
-C12 — placeholder (theorems follow)
+C12 — Results do not depend on how the grammar is written down.
+The specification level: the equation system F and Kleene iteration (= sums over derivations, C01) are
+invariant under reordering the rules, reordering the edges of a rule, and renumbering the nodes of a rule.
+(Ids and label *names* do not exist at this level: `Sem.Grammar` is what remains of an FGG after erasing them.)
 -/
 import FggsModel.Sem
+import FggsProofs.Props.C01
+import Mathlib.Tactic.Linarith
+import Mathlib.Data.List.Basic
+import Mathlib.Data.List.Forall2
+import Mathlib.Data.List.Nodup
+import Mathlib.Data.List.Perm.Basic
+
+set_option linter.unusedSimpArgs false
+set_option linter.unusedVariables false
+
+namespace C12
+open Fggs Fggs.Sem
+
+variable {K : Type}
+
+private theorem foldl_add (S : SR K) (hS : C01.SRLaws S) (l : List K) (a : K) :
+    l.foldl S.add a = S.add a (S.sum l) := by
+  induction l generalizing a with
+  | nil => simp [SR.sum]; rw [hS.add_comm, hS.zero_add]
+  | cons b l ih =>
+    simp only [SR.sum, List.foldl_cons]
+    rw [ih, ih (S.add S.zero b), hS.zero_add, hS.add_assoc]
+
+private theorem sum_cons (S : SR K) (hS : C01.SRLaws S) (a : K) (l : List K) :
+    S.sum (a :: l) = S.add a (S.sum l) := by
+  show (a :: l).foldl S.add S.zero = _
+  rw [List.foldl_cons, foldl_add S hS, hS.zero_add]
+
+private theorem foldl_mul (S : SR K) (hS : C01.SRLaws S) (l : List K) (c : K) :
+    l.foldl S.mul c = S.mul c (S.prod l) := by
+  induction l generalizing c with
+  | nil => simp [SR.prod]; rw [hS.mul_comm, hS.one_mul]
+  | cons b l ih =>
+    simp only [SR.prod, List.foldl_cons]
+    rw [ih, ih (S.mul S.one b), hS.one_mul, hS.mul_assoc]
+
+private theorem prod_cons (S : SR K) (hS : C01.SRLaws S) (a : K) (l : List K) :
+    S.prod (a :: l) = S.mul a (S.prod l) := by
+  show (a :: l).foldl S.mul S.one = _
+  rw [List.foldl_cons, foldl_mul S hS, hS.one_mul]
+
+/-- sums and products over permuted lists agree (commutative semiring) -/
+theorem sum_perm (S : SR K) (hS : C01.SRLaws S) (l l' : List K) (h : l.Perm l') : S.sum l = S.sum l' := by
+  induction h with
+  | nil => rfl
+  | cons a _ ih => rw [sum_cons S hS, sum_cons S hS, ih]
+  | swap a b l =>
+    rw [sum_cons S hS, sum_cons S hS, sum_cons S hS, sum_cons S hS, ← hS.add_assoc, ← hS.add_assoc,
+      hS.add_comm a b]
+  | trans _ _ ih1 ih2 => rw [ih1, ih2]
+
+theorem prod_perm (S : SR K) (hS : C01.SRLaws S) (l l' : List K) (h : l.Perm l') : S.prod l = S.prod l' := by
+  induction h with
+  | nil => rfl
+  | cons a _ ih => rw [prod_cons S hS, prod_cons S hS, ih]
+  | swap a b l =>
+    rw [prod_cons S hS, prod_cons S hS, prod_cons S hS, prod_cons S hS, ← hS.mul_assoc, ← hS.mul_assoc,
+      hS.mul_comm a b]
+  | trans _ _ ih1 ih2 => rw [ih1, ih2]
+
+/-- **reordering the edges of a rule does not change its value** -/
+theorem ruleCell_perm_edges (S : SR K) (hS : C01.SRLaws S) (G : Grammar K) (x : Val K) (r r' : Rule)
+    (hl : r'.lhs = r.lhs) (hn : r'.nodes = r.nodes) (he : r'.ext = r.ext) (hp : r'.edges.Perm r.edges) (a : List Nat) :
+    ruleCell S G x r' a = ruleCell S G x r a := by
+  unfold ruleCell
+  rw [hn, he]
+  congr 1
+  apply List.map_congr_left
+  intro ρ _
+  exact prod_perm S hS _ _ (hp.map _)
+
+/-- two grammars that differ only in the order of their rule lists -/
+structure SameUpToRuleOrder (G G' : Grammar K) : Prop where
+  nls : G'.nls = G.nls
+  terms : G'.terms = G.terms
+  nts : G'.nts = G.nts
+  start : G'.start = G.start
+  weights : G'.weights = G.weights
+  rules : G'.rules.Perm G.rules
+
+/-- **reordering the rules does not change the equation system** (cell by cell) … -/
+theorem F_perm_rules (S : SR K) (hS : C01.SRLaws S) (G G' : Grammar K) (h : SameUpToRuleOrder G G') (x : Val K)
+    (X : Nat) (hX : X < G.nts.length) (a : List Nat) (ha : a ∈ assigns (G.shapeOf (G.nts[X]?.getD [])))
+    (hshape : ∀ r ∈ G.rules, G.shapeOf (r.ext.map (fun v => r.nodes[v]?.getD 0)) = G.shapeOf (G.nts[r.lhs]?.getD [])) :
+    C01.valCell S G' (F S G' x) X a = C01.valCell S G (F S G x) X a := by
+  obtain ⟨h1, h2, h3, h4, h5, h6⟩ := h
+  obtain ⟨nls, terms, nts, start, rules, weights⟩ := G
+  obtain ⟨nls', terms', nts', start', rules', weights'⟩ := G'
+  simp only at h1 h2 h3 h4 h5 h6
+  subst h1 h2 h3 h4 h5
+  have hs : ∀ (G : Grammar K) (X : Nat), ∀ r ∈ G.rulesOf X, r ∈ G.rules ∧ r.lhs = X := by
+    intro G X r hr
+    have := List.mem_filter.1 hr
+    exact ⟨this.1, by simpa using this.2⟩
+  have e1 := C01.F_cell S hS ⟨nls', terms', nts', start', rules, weights'⟩ x X hX a ha (by
+    intro r hr
+    obtain ⟨hr1, hr2⟩ := hs _ _ r hr
+    have := hshape r hr1
+    rw [hr2] at this
+    exact this)
+  have e2 := C01.F_cell S hS ⟨nls', terms', nts', start', rules', weights'⟩ x X hX a ha (by
+    intro r hr
+    obtain ⟨hr1, hr2⟩ := hs _ _ r hr
+    have := hshape r (h6.mem_iff.1 hr1)
+    rw [hr2] at this
+    exact this)
+  rw [e1, e2]
+  apply sum_perm S hS
+  apply List.Perm.map
+  exact h6.filter _
+
+/-! ### renumbering nodes -/
+
+private theorem mem_assigns {shape a : List Nat} :
+    a ∈ assigns shape ↔ List.Forall₂ (· < ·) a shape := by
+  induction shape generalizing a with
+  | nil => simp [assigns]
+  | cons n rest ih =>
+    simp only [assigns, List.mem_flatMap, List.mem_range, List.mem_map]
+    constructor
+    · rintro ⟨i, hi, is, his, rfl⟩
+      exact List.Forall₂.cons hi (ih.1 his)
+    · intro h
+      cases h with
+      | cons hi his => exact ⟨_, hi, _, ih.2 his, rfl⟩
+
+private theorem nodup_assigns (shape : List Nat) : (assigns shape).Nodup := by
+  induction shape with
+  | nil => simp [assigns]
+  | cons n rest ih =>
+    rw [assigns, List.nodup_flatMap]
+    refine ⟨fun i _ => ih.map (fun _ _ h => (List.cons.inj h).2), ?_⟩
+    refine List.Pairwise.imp ?_ List.nodup_range
+    intro i j hij l h1 h2
+    obtain ⟨_, _, rfl⟩ := List.mem_map.1 h1
+    obtain ⟨_, _, h⟩ := List.mem_map.1 h2
+    exact hij (List.cons.inj h).1.symm
+
+private theorem getD_map_range (n : Nat) (f : Nat → Nat) (w : Nat) (hw : w < n) :
+    ((List.range n).map f)[w]?.getD 0 = f w := by
+  simp [List.getElem?_map, List.getElem?_range hw]
+
+/-- membership in `assigns` of a shape given by a function on positions -/
+private theorem mem_assigns_range (n : Nat) (D : Nat → Nat) (ρ : List Nat) :
+    ρ ∈ assigns ((List.range n).map D) ↔ ρ.length = n ∧ ∀ i < n, ρ[i]?.getD 0 < D i := by
+  rw [mem_assigns, List.forall₂_iff_get]
+  simp only [List.length_map, List.length_range, List.get_eq_getElem, List.getElem_map, List.getElem_range]
+  constructor
+  · rintro ⟨h1, h2⟩
+    refine ⟨h1, fun i hi => ?_⟩
+    have := h2 i (by omega) hi
+    simpa [List.getElem?_eq_getElem (show i < ρ.length by omega)] using this
+  · rintro ⟨h1, h2⟩
+    refine ⟨h1, fun i hi hi' => ?_⟩
+    have := h2 i hi'
+    simpa [List.getElem?_eq_getElem hi] using this
+
+private theorem shapeOf_eq_range (G : Grammar K) (nodes : List Nat) :
+    G.shapeOf nodes = (List.range nodes.length).map (fun v => G.dom (nodes[v]?.getD 0)) := by
+  unfold Grammar.shapeOf
+  apply List.ext_getElem
+  · simp
+  · intro i h1 h2
+    have : i < nodes.length := by simpa using h1
+    simp [List.getElem?_eq_getElem this]
+
+/-- reindexing of assignment lists along a bijection `s`/`t` of positions `0..n-1` -/
+private theorem assigns_reindex (n : Nat) (D s t : Nat → Nat)
+    (hs : ∀ v < n, s v < n ∧ t (s v) = v) (ht : ∀ w < n, t w < n ∧ s (t w) = w) :
+    (assigns ((List.range n).map (fun w => D (t w)))).Perm
+      ((assigns ((List.range n).map D)).map (fun ρ => (List.range n).map (fun w => ρ[t w]?.getD 0))) := by
+  have hinj : ∀ ρ₁ ∈ assigns ((List.range n).map D), ∀ ρ₂ ∈ assigns ((List.range n).map D),
+      (List.range n).map (fun w => ρ₁[t w]?.getD 0) = (List.range n).map (fun w => ρ₂[t w]?.getD 0) → ρ₁ = ρ₂ := by
+    intro ρ₁ h1 ρ₂ h2 heq
+    rw [mem_assigns_range] at h1 h2
+    apply List.ext_getElem (by omega)
+    intro i hi1 hi2
+    have hi : i < n := by omega
+    have := congrArg (fun l => l[s i]?.getD 0) heq
+    simp only [getD_map_range n _ _ (hs i hi).1, (hs i hi).2] at this
+    simpa [List.getElem?_eq_getElem hi1, List.getElem?_eq_getElem hi2] using this
+  rw [List.perm_ext_iff_of_nodup (nodup_assigns _) ((nodup_assigns _).map_on hinj)]
+  intro ρ'
+  rw [mem_assigns_range, List.mem_map]
+  constructor
+  · rintro ⟨h1, h2⟩
+    refine ⟨(List.range n).map (fun v => ρ'[s v]?.getD 0), ?_, ?_⟩
+    · rw [mem_assigns_range]
+      refine ⟨by simp, fun i hi => ?_⟩
+      rw [getD_map_range n _ _ hi]
+      have := h2 (s i) (hs i hi).1
+      rwa [(hs i hi).2] at this
+    · apply List.ext_getElem (by simp [h1])
+      intro i hi1 hi2
+      have hi : i < n := by omega
+      simp only [List.getElem_map, List.getElem_range]
+      rw [getD_map_range n _ _ (ht i hi).1, (ht i hi).2]
+      simp [List.getElem?_eq_getElem hi2]
+  · rintro ⟨ρ, hρ, rfl⟩
+    rw [mem_assigns_range] at hρ
+    refine ⟨by simp, fun i hi => ?_⟩
+    rw [getD_map_range n _ _ hi]
+    exact hρ.2 _ (ht i hi).1
+
+/-- renumbering the nodes of a rule by a permutation `σ` of positions (given as the list `σ 0, σ 1, …`,
+with inverse `τ`): node `v` of the old rule is node `σ v` of the new one -/
+def renumber (σ : List Nat) (r : Rule) : Rule :=
+  { lhs := r.lhs,
+    nodes := (List.range r.nodes.length).map (fun w => r.nodes[(σ.idxOf w)]?.getD 0),
+    ext := r.ext.map (fun v => σ[v]?.getD 0),
+    edges := r.edges.map (fun e => (e.1, e.2.map (fun v => σ[v]?.getD 0))) }
+
+/-- **renumbering the nodes of a rule does not change its value** -/
+theorem ruleCell_renumber (S : SR K) (hS : C01.SRLaws S) (G : Grammar K) (x : Val K) (r : Rule)
+    (σ : List Nat) (hσ : σ.Perm (List.range r.nodes.length))
+    (hext : ∀ v ∈ r.ext, v < r.nodes.length) (hatt : ∀ e ∈ r.edges, ∀ v ∈ e.2, v < r.nodes.length) (a : List Nat) :
+    ruleCell S G x (renumber σ r) a = ruleCell S G x r a := by
+  obtain ⟨lhs, nodes, ext, edges⟩ := r
+  simp only at hσ hext hatt
+  have hlen : σ.length = nodes.length := by simpa using hσ.length_eq
+  have hnd : σ.Nodup := hσ.nodup_iff.2 List.nodup_range
+  have hmem : ∀ w, w ∈ σ ↔ w < nodes.length := fun w => by rw [hσ.mem_iff, List.mem_range]
+  have hs : ∀ v < nodes.length, σ[v]?.getD 0 < nodes.length ∧ σ.idxOf (σ[v]?.getD 0) = v := by
+    intro v hv
+    have hv' : v < σ.length := by omega
+    rw [List.getElem?_eq_getElem hv', Option.getD_some]
+    exact ⟨(hmem _).1 (List.getElem_mem hv'), hnd.idxOf_getElem v hv'⟩
+  have ht : ∀ w < nodes.length, σ.idxOf w < nodes.length ∧ σ[σ.idxOf w]?.getD 0 = w := by
+    intro w hw
+    have h1 : σ.idxOf w < σ.length := List.idxOf_lt_length_iff.2 ((hmem w).2 hw)
+    rw [List.getElem?_eq_getElem h1, Option.getD_some, List.getElem_idxOf h1]
+    exact ⟨by omega, rfl⟩
+  have hperm := assigns_reindex nodes.length (fun v => G.dom (nodes[v]?.getD 0))
+    (fun v => σ[v]?.getD 0) (fun w => σ.idxOf w) hs ht
+  unfold ruleCell renumber
+  simp only
+  rw [shapeOf_eq_range G nodes, shapeOf_eq_range G (List.map _ _)]
+  simp only [List.length_map, List.length_range]
+  have hD : (List.range nodes.length).map (fun v =>
+        G.dom (((List.range nodes.length).map (fun w => nodes[σ.idxOf w]?.getD 0))[v]?.getD 0)) =
+      (List.range nodes.length).map (fun w => G.dom (nodes[σ.idxOf w]?.getD 0)) := by
+    apply List.map_congr_left
+    intro v hv
+    rw [getD_map_range _ _ _ (List.mem_range.1 hv)]
+  rw [hD]
+  rw [sum_perm S hS _ _ ((hperm.filter _).map _), List.filter_map, List.map_map]
+  have key : ∀ ρ ∈ assigns ((List.range nodes.length).map (fun v => G.dom (nodes[v]?.getD 0))),
+      ∀ att : List Nat, (∀ v ∈ att, v < nodes.length) →
+      (att.map (fun v => σ[v]?.getD 0)).map
+        (fun v => ((List.range nodes.length).map (fun w => ρ[σ.idxOf w]?.getD 0))[v]?.getD 0) =
+      att.map (fun v => ρ[v]?.getD 0) := by
+    intro ρ _ att hatt'
+    rw [List.map_map]
+    apply List.map_congr_left
+    intro v hv
+    have hv' := hatt' v hv
+    simp only [Function.comp_def]
+    rw [getD_map_range _ _ _ (hs v hv').1, (hs v hv').2]
+  have hfilt : List.filter ((fun ρ => List.map (fun v => ρ[v]?.getD 0) (List.map (fun v => σ[v]?.getD 0) ext) == a) ∘
+        fun ρ => (List.range nodes.length).map (fun w => ρ[σ.idxOf w]?.getD 0))
+      (assigns ((List.range nodes.length).map (fun v => G.dom (nodes[v]?.getD 0)))) =
+      List.filter (fun ρ => List.map (fun v => ρ[v]?.getD 0) ext == a)
+      (assigns ((List.range nodes.length).map (fun v => G.dom (nodes[v]?.getD 0)))) := by
+    apply List.filter_congr
+    intro ρ hρ
+    simp only [Function.comp_def]
+    rw [key ρ hρ ext hext]
+  rw [hfilt]
+  congr 1
+  apply List.map_congr_left
+  intro ρ hρ
+  have hρ' := (List.mem_filter.1 hρ).1
+  simp only [Function.comp_def, List.map_map]
+  congr 1
+  apply List.map_congr_left
+  intro e he
+  have := key ρ hρ' e.2 (hatt e he)
+  rw [List.map_map] at this
+  simp only [Function.comp_def] at this
+  rw [this]
+
+end C12
